@@ -394,6 +394,75 @@ pub fn run(tier: &str) -> Result<Report, String> {
         // anchor: the plain results themselves are validated against the oracle by C01; count tables here
         rep.traces_validated += fs.len() as u64;
     }
+    // one public evaluation context, the SAME surrounding formula evaluated again after its label was bound to the
+    // pre-computed result of another closed sub-formula (EvalContext and eval_node are public; a user who substitutes many
+    // results into one surrounding formula extends one context again and again): each round must equal the full formula
+    {
+        use biodivine_hctl_model_checker::evaluation::algorithm::{compute_steady_states, eval_node};
+        use biodivine_hctl_model_checker::evaluation::eval_context::EvalContext;
+        use biodivine_hctl_model_checker::preprocessing::parser::parse_and_minimize_extended_formula;
+        let surround = [
+            ("EF (%w0% & a)", false), ("!{x}: AX (EF ({x} & %w0%))", false), ("3{x}: @{x}: (%w0% | AX {x})", false), ("AG %w0%", false), ("!{x}: AX (EF ({x} & %w0%) | AG %w0%)", false),
+            ("!{x} in %w0%: AX {x}", true), ("V{x} in %w0%: EF {x}", true), ("3{x} in %w0%: @{x}: AG a", true),
+        ];
+        let subs = ["a & ~b", "EX a", "!{y}: AX {y}", "3{y}: ((@{y}: b) & EF {y})", "AG EF a", "True", "False", "b"];
+        let mut n_rounds = 0u64;
+        for b in nets.iter().filter(|b| ["con2", "asy2", "tog2"].contains(&b.name.as_str())) {
+            let g = &b.graph;
+            let steady = compute_steady_states(g);
+            let sub_sets: Vec<GraphColoredVertices> = subs.iter().map(|s| run_dirty(s, g)).collect::<Result<Vec<_>, _>>().map_err(|e| format!("harness: sub-formula does not evaluate: {e}"))?;
+            for (s, as_domain) in surround {
+                let tree = parse_and_minimize_extended_formula(g.symbolic_context(), s).map_err(|e| format!("harness: {s}: {e}"))?;
+                for i in 0..subs.len() {
+                    for j in 0..subs.len() {
+                        if i == j {
+                            continue;
+                        }
+                        n_rounds += 1;
+                        let mk = |k: usize| -> HashMap<String, GraphColoredVertices> { HashMap::from([("w0".to_string(), sub_sets[k].clone())]) };
+                        let none: HashMap<String, GraphColoredVertices> = HashMap::new();
+                        let r = guarded(AssertUnwindSafe(|| {
+                            let mut c = EvalContext::from_single_tree(&tree);
+                            if as_domain { c.extend_context_with_wild_cards(&none, &mk(i)) } else { c.extend_context_with_wild_cards(&mk(i), &none) };
+                            let r1 = eval_node(tree.clone(), g, &mut c, &steady, &mut |_, _| {});
+                            if as_domain { c.extend_context_with_wild_cards(&none, &mk(j)) } else { c.extend_context_with_wild_cards(&mk(j), &none) };
+                            let r2 = eval_node(tree.clone(), g, &mut c, &steady, &mut |_, _| {});
+                            (r1, r2)
+                        }));
+                        // the full formulae: a sub-formula in proposition position is substituted textually; in domain position the
+                        // documented equivalence of the README is used (`Q{x} in A: phi` with A's result as the domain)
+                        let full = |k: usize| -> Result<GraphColoredVertices, String> {
+                            if as_domain {
+                                run_ext(s, g, &mk(k))
+                            } else {
+                                run_dirty(&s.replace("%w0%", &format!("({})", subs[k])), g)
+                            }
+                        };
+                        let what = match (r, full(i), full(j)) {
+                            (Ok((r1, r2)), Ok(e1), Ok(e2)) => {
+                                if r1 != e1 {
+                                    Some(format!("first round (%w0% := result of {}) differs from the full formula", subs[i]))
+                                } else if r2 != e2 {
+                                    Some(format!("second round on the same context (%w0% := result of {}, before: result of {}) differs from the full formula", subs[j], subs[i]))
+                                } else {
+                                    None
+                                }
+                            }
+                            (Err(p), _, _) => Some(format!("panic: {p}")),
+                            (_, e1, e2) => Some(format!("reference evaluation fails: {:?} / {:?}", e1.err(), e2.err())),
+                        };
+                        if let Some(w) = what {
+                            if rep.violations.len() < 100 {
+                                rep.violations.push(Violation { case: json!({"kind": "none"}), what: format!("one evaluation context, surrounding formula `{s}` on {}: {w}", b.name), size: 20 });
+                            }
+                        }
+                    }
+                }
+            }
+        }
+        rep.evaluations += n_rounds * 4;
+        rep.add_count("rounds_on_one_reused_evaluation_context", n_rounds);
+    }
     // surrounding formulae with wild-cards and restricted domains (label families mixed / disjoint)
     let mut ext_total = 0u64;
     for b in nets.iter().filter(|b| ["con2", "asy2"].contains(&b.name.as_str()) || (tier != "quick" && ["imp1", "unc2"].contains(&b.name.as_str()))) {
